@@ -141,7 +141,7 @@ int main(void)
     while ((line = hx_getline())) {
         flatcc_options_t opts;
         flatcc_context_t ctx;
-        int is_buf, genmode, rc = -99, grc = -99, nfiles, leak = 0;
+        int is_buf, genmode, rc = -99, grc = -99, nfiles, leak = 0, null_opts = 0;
         uint8_t *data = 0; size_t len = 0; char *zbuf = 0;
         const char *outdir, *name;
         char outprefix[1100];
@@ -155,7 +155,8 @@ int main(void)
         nstr = 0;
         flatcc_init_options(&opts);
         opts.inpath_count = 0; opts.inpaths = 0;
-        parse_opts(&opts, tok[1]);
+        null_opts = !strcmp(tok[1], "NULLOPTS");
+        if (!null_opts) parse_opts(&opts, tok[1]);
         genmode = atoi(tok[2]);
         outdir = tok[3];
         mkdir(outdir, 0700);
@@ -174,7 +175,8 @@ int main(void)
         if (ftruncate(stdout_fd, 0) < 0) {}
         lseek(stdout_fd, 0, SEEK_SET);
         alarm(alarm_seconds);
-        ctx = flatcc_create_context(&opts, name, on_error, 0);
+        /* option token NULLOPTS: pass a null options pointer (fb_init_parser installs the defaults) */
+        ctx = flatcc_create_context(null_opts ? 0 : &opts, name, on_error, 0);
         if (!ctx) {
             /* refused option set: nothing may stay allocated and a diagnostic must have been delivered */
             alarm(0);
